@@ -105,6 +105,7 @@ def run(chk):
     tables(chk, scan, prt, arms)
     strings(chk, tu)
     delimiters(chk, tu, suffix)
+    engine_delimiter(chk, tu)
     python_side(chk, repo, tu)
     data_start(chk, repo, tu)
     # the converter used before a text write decides on every field with a byte order (shared rule with C16)
@@ -1977,6 +1978,78 @@ def delimiters(chk, tu, suffix=None):
     else:
         _delimiters_by_function(chk, tu, why_not)
     _delimiters_reader(chk, tu, suffix)
+
+
+def engine_delimiter(chk, tu):
+    """The C++ half of "for every single-character delimiter": the engine keeps the delimiter string it is given, character for
+    character (process_delim, for a symbolic string -- so for every delimiter), and a file with any delimiter of the property is a
+    text file while the empty delimiter means binary (set_file_type, constant evaluation of its test for each delimiter of the finite
+    domain).  Functions are found by what they do to the members mDelim / mFileType; when they are not there under these names or
+    fork in a way that is not modelled: no verdict."""
+    keys = [("R04.4", "engine::delimiter-taken-unchanged", "the engine's delimiter (mDelim) is the string it was given, unchanged"),
+            ("R04.4", "engine::text-for-every-delimiter", "every single-character delimiter of the property makes the file a text file (mFileType), the empty one a binary file")]
+
+    def go():
+        obj = _SYM("delim_obj")
+        vs, notes = [], []
+        if "Records::process_delim" not in tu.funcs:
+            vs.append(None)
+            notes.append("no Records::process_delim")
+        else:
+            for br in (0, 1):
+                trs = list(c_paths(tu, "Records::process_delim", [obj], _mem(mBracketArrays=br, mDelim=_SYM("mDelim0"), mArrayDelim=_SYM("mArrayDelim0"),
+                                                                              mReadAsWhitespace=_SYM("ws0")),
+                                   opaque=("is_python_string", "get_object_as_string"), max_paths=64))
+                seen = False
+                for tr in trs:
+                    made = [c for c in tr.calls() if obj in c[2]]
+                    if tr.end != "return" or not made:
+                        continue                    # no delimiter object / None (binary), or refused
+                    got = tr.mem.get("mDelim")
+                    texts = [c[4] for c in made if "string" in c[1] and "is_" not in c[1]]
+                    if not texts:
+                        vs.append(None)
+                        notes.append("the delimiter object goes through %s: not recognised as its text" % sorted({c[1] for c in made}))
+                    elif any(got == t for t in texts):
+                        vs.append(True)
+                        seen = True
+                    elif isinstance(got, str) or (isinstance(got, tuple) and got and got[0] == "cat") or got == _SYM("mDelim0"):
+                        vs.append(False)
+                        notes.insert(0, "with a delimiter string given, mDelim ends as %s instead of the text of the object (%s)" % (_show(got), made[-1][1]))
+                    else:
+                        vs.append(None)
+                        notes.append("mDelim ends as %s" % (_show(got),))
+                if not seen:
+                    vs.append(None)
+        chk.ob("R04.4", keys[0][1], _verdict(vs), W, keys[0][2] + ((" (%s)" % "; ".join(notes[:3])) if notes else ""))
+
+    def go2():
+        vs, notes = [], []
+        if "Records::set_file_type" not in tu.funcs:
+            vs.append(None)
+            notes.append("no Records::set_file_type")
+        else:
+            kind = {}
+            for d in _DELIMS + ("",):
+                tr = _one(tu, "Records::set_file_type", [], _mem(mDelim=d, mFileType=_SYM("mFileType0")))
+                kind[d] = tr.mem.get("mFileType") if tr.end == "return" else ("throw",)
+            binary = kind[""]
+            text = {repr(kind[d]) for d in _DELIMS}
+            if binary == _SYM("mFileType0") or repr(_SYM("mFileType0")) in text:
+                vs.append(None)
+                notes.append("mFileType is not set by set_file_type")
+            else:
+                for d in _DELIMS:
+                    vs.append(kind[d] != binary)
+                    if kind[d] == binary:
+                        notes.append("delimiter %r gives file type %s, the same as the empty delimiter (binary)" % (d, _show(kind[d])))
+                if len(text) != 1 and all(vs):
+                    vs.append(None)
+                    notes.append("more than one kind of text file: %s" % sorted(text))
+        chk.ob("R04.4", keys[1][1], _verdict(vs), W, keys[1][2] + ((" (%s)" % "; ".join(notes[:3])) if notes else ""))
+
+    _group(chk, keys[:1], go)
+    _group(chk, keys[1:], go2)
 
 
 def _delimiters_by_function(chk, tu, why_not=None):
@@ -4033,11 +4106,18 @@ class _NoEval(Exception):
     pass
 
 
+# methods of str that are functions of the string alone (constant evaluation of a test over a finite domain of strings)
+_STR_METHODS = ("startswith", "endswith", "lower", "upper", "strip", "lstrip", "rstrip", "isspace", "isalpha", "isdigit", "isalnum", "isprintable")
+
+
 def _cev(t, subject, value):
     """the python value of a term when the term `subject` has the given value; _NoEval when the term reads anything else"""
     if t is None:
         raise _NoEval()
-    if t is subject or (_pure(t) and _pure(subject) and _txt(t) == _txt(subject)):
+    if callable(subject):                      # a predicate that recognises the subject in more than one spelling
+        if subject(t):
+            return value
+    elif t is subject or (_pure(t) and _pure(subject) and _txt(t) == _txt(subject)):
         return value
     t = _unbool(t)
     o = t.op
@@ -4067,10 +4147,14 @@ def _cev(t, subject, value):
             return r
         if o == "binop" and t.name == "Add":
             return _cev(t.args[0], subject, value) + _cev(t.args[1], subject, value)
-        if o == "call" and t.args[0] is not None and not t.kw and t.name in ("startswith", "endswith", "lower", "upper", "strip") and len(t.args) <= 2:
+        if o == "call" and t.args[0] is not None and not t.kw and t.name in _STR_METHODS and len(t.args) <= 2:
             recv = _cev(t.args[0], subject, value)
             if isinstance(recv, str):
                 return getattr(recv, t.name)(*[_cev(x, subject, value) for x in t.args[1:]])
+        if o == "call" and t.args[0] is None and not t.kw and t.name == "len" and len(t.args) == 2:
+            x = _cev(t.args[1], subject, value)
+            if isinstance(x, (str, tuple)):
+                return len(x)
     except _NoEval:
         raise
     except Exception:
@@ -4106,6 +4190,98 @@ def _opened_for_reading(mode, st):
         return "dead"
     rs = {m[:1] == "r" for m in left}
     return rs.pop() if len(rs) == 1 else None
+
+
+# the single-character delimiters the property quantifies over
+_DELIMS = (",", ":", "\t", " ", ";", "|")
+
+
+def _is_delim_source(t):
+    """the delimiter the caller of Recfile.open gave: the parameter `delim`, or the entry `delim` of a parameter that collects the
+    keywords (keys.get('delim', ...), keys.pop('delim', ...), keys['delim'])"""
+    if t is None:
+        return False
+    if t.op == "param":
+        return t.name == "delim"
+    if t.op == "call" and t.name in ("get", "pop") and not t.kw and len(t.args) in (2, 3):
+        return t.args[0] is not None and t.args[0].op == "param" and t.args[1].op == "const" and t.args[1].name == "delim"
+    if t.op == "sub":
+        return t.args[0].op == "param" and t.args[1].op == "const" and t.args[1].name == "delim"
+    return False
+
+
+def _mentions_term(t, pred, depth=0):
+    if t is None or depth > 12:
+        return False
+    if pred(t):
+        return True
+    return any(_mentions_term(x, pred, depth + 1) for x in list(t.args) + list(t.kw.values()))
+
+
+def _delimiter_kept(op, paths):
+    """R04.3 Recfile.open::delimiter-reaches-the-text-engine.  The property holds "for every single-character delimiter"; a necessary
+    condition is that each of them, given by the caller, is the delimiter of the Recfile and the one the text engine (records.Records)
+    is made with -- not replaced by None (binary file) or by another character.  Decided over the finite domain of the delimiters of
+    the property: on every normal-exit path the branch facts that speak about the caller's delimiter and constants are evaluated for
+    each delimiter (constant evaluation of ==, in, strip(), isspace(), len(), truthiness ...), which gives the delimiters the path
+    can be taken with; for each of them the final self.delim and the `delim` argument of every Records(...) made on the path must
+    evaluate to that delimiter, and every delimiter must be left with at least one normal-exit path.
+    -> (verdict, notes)"""
+    vs, notes, served = [], [], set()
+    for ret, st in paths:
+        facts = st.facts()
+        opaque = False          # a fact about the delimiter that is not evaluated: the path may be narrower than computed
+        left = []
+        for d in _DELIMS:
+            ok = True
+            for t, truth in facts:
+                try:
+                    if bool(_cev(t, _is_delim_source, d)) != truth:
+                        ok = False
+                        break
+                except _NoEval:
+                    if _mentions_term(t, _is_delim_source):
+                        opaque = True
+            if ok:
+                left.append(d)
+        if not left:
+            continue
+        other = _self_calls(st, ("close", "_count_nrows"))
+        soft = opaque or bool(other)
+        about = sorted(txt for txt, b in st.known.items() if txt in st.kterm and _mentions_term(st.kterm[txt], _is_delim_source))
+        about = ", ".join("%s is %s" % (txt, st.known[txt]) for txt in about) or "no test of the delimiter"
+        engines = [e[1] for e in st.events if e[0] == "call" and e[1].name == "Records"]
+        if engines:
+            served.update(left)
+        sinks = [("self.delim", st.heap.get(("self", "delim")))]
+        for c in engines:
+            if "delim" in c.kw:
+                sinks.append(("Records(delim=)", c.kw["delim"]))
+            else:
+                vs.append(None)
+                notes.append("a Records(...) is made without a `delim` keyword")
+        for what, term in sinks:
+            if term is None:
+                vs.append(None)
+                continue
+            for d in left:
+                try:
+                    got = _cev(term, _is_delim_source, d)
+                except _NoEval:
+                    vs.append(None)
+                    notes.append("%s = %s is not evaluated for delim=%r" % (what, _txt(term), d))
+                    break
+                if got == d and type(got) is type(d):
+                    vs.append(True)
+                else:
+                    vs.append(None if soft else False)
+                    notes.insert(0, "for delim=%r (path where %s) %s is %r instead of the caller's delimiter%s" % (
+                        d, about, what, got, " [the path has tests / self calls that were not evaluated]" if soft else ""))
+    for d in _DELIMS:
+        if d not in served:
+            vs.append(False if paths else None)
+            notes.insert(0, "no normal-exit path of open makes the text engine (records.Records) for delim=%r" % d)
+    return _verdict(vs), notes
 
 
 def recfile_open(chk, repo):
@@ -4180,6 +4356,10 @@ def recfile_open(chk, repo):
     chk.ob("R04.3", k1, _verdict(v1), op.where(), m1 + extra)
     chk.ob("R04.3", k2, _verdict(v2), op.where(), m2 + extra)
     chk.ob("R04.3", k3, _verdict(v3), op.where(), m3 + extra)
+    v4, n4 = _delimiter_kept(op, paths)
+    chk.ob("R04.3", "Recfile.open::delimiter-reaches-the-text-engine", v4, op.where(),
+           "each single-character delimiter of the property (%s) given by the caller stays the delimiter of the Recfile and is the one the text engine "
+           "is made with%s" % (" ".join(repr(d) for d in _DELIMS), (" (%s)" % "; ".join(n4[:3])) if n4 else ""))
 
 
 def make_header(chk, repo):
